@@ -102,7 +102,7 @@ func GetPage(r pdf.Getter, pageNo int) (pdf.Reference, pdf.Dict, error) {
 			}
 
 			for _, name := range inheritable {
-				if _, ok := pageTreeNode[name]; !ok {
+				if !hasValue(c, pageTreeNode, name) {
 					if val, ok := inherited[name]; ok {
 						pageTreeNode[name] = val
 					}
@@ -120,8 +120,8 @@ func GetPage(r pdf.Getter, pageNo int) (pdf.Reference, pdf.Dict, error) {
 				return 0, nil, errInvalidPageTree
 			} else if skip < count {
 				for _, name := range inheritable {
-					if tmp, ok := pageTreeNode[name]; ok {
-						inherited[name] = tmp
+					if hasValue(c, pageTreeNode, name) {
+						inherited[name] = pageTreeNode[name]
 					}
 				}
 
